@@ -25,8 +25,10 @@ class P(vlib.Prop):
             "groupByOriginAndSize's cut (groups x budgets), RepoAbbr, EnvAuth.AddAuth, etagFromResponse, each compared with its model in Coq; decoders also gets the family declared-size: tar members whose header (ustar octal, GNU "
             "base-256, PAX size record) declares 2^31..2^63-1 bytes with 0 or 3 bytes following, under every member name each tar reader reads (APKINDEX, DESCRIPTION, .SIGN.*, .PKGINFO, scripts, data entries), for IndexFromArchive, "
             "parseRepositoryIndex, Split, ExpandApk, ParsePackage, NewAPKFS, the install loop and InstallPackages on tarfs and memfs: a panic, a death of the child, a timeout or more than 256 MiB allocated during the call is a violation; "
-            "includes (new stage): ImageConfiguration.Load on real directory trees (working directory, include paths, relative includes, one file under different spellings, undecodable files), class and merged contents.packages "
-            "compared with the model load_config (paths.ResolvePath + the kernel's path walk) at fuel 40 and at the proved bound |files|+2; a load that does not come back (stack growth or 20 s) is finding C15-F6. distinct = distinct case terms.")
+            "includes: ImageConfiguration.Load on real directory trees (working directory, include paths, relative includes, one file under different spellings, undecodable files), class and merged contents.packages "
+            "compared with the model load_config (paths.ResolvePath + the kernel's path walk + the list of resolved paths being loaded, fix 43ae291) at fuel 40 and at the proved bound |files|+2: 65 of the 148 quick trees are cyclic and must be refused with an error; a load that does not come back (stack growth or 20 s) carries the tag of the repaired finding C15-F6, which stays armed. "
+            "Both child probes of the repaired finding C15-F4 (a './' entry through sortTarHeaders and through the install path) must exit normally; the install decoder reader no longer leaves './' entries out. "
+            "In-process stages give a call that misses its deadline a second, long wait before it counts as a hang (a machine shared with other checks). distinct = distinct case terms.")
     stages = (
         dict(name="readers", cmd="c15", args=lambda t, s: []),
         dict(name="sites", cmd="c15", args=lambda t, s: ["-stage", "sites"]),
@@ -39,23 +41,25 @@ class P(vlib.Prop):
         "the regexp engine returns submatch vectors of 1 + NumSubexp entries; the group counts are computed from the regex literals goextract reads from the source",
         "M: lines that do not directly follow their F: line are outside the model (stale pointer after slice growth); such mutated texts are run in Go only",
         "ExpandApk / Split / ResolveApk: a gzip member is abstracted to one of six kinds (signature tar, other tar, gzip of nothing, corrupt gzip, end marker only, no tar); what the gzip and tar readers do inside a member is the library's business (compared on every sequence of up to 4 members, 1555 x 2 in thorough)",
+        "sortTarHeaders: Formats.sort_headers (shared with C16) is the function after fix f716198 (entries that clean to '.' filtered first); sort_headers_raw is the former function and only appears in statements labelled hypothetical",
         "ImageConfiguration.Load: a file is its marker and its include field (or undecodable); the file tree has no symbolic links; os.Stat / os.ReadFile are the model's path walk (a name is looked up in an existing directory, '..' of the root is the root)",
         "RemoveLabel, parseAnnotations, parseAlpineVersion, fetchOffline, installBusyboxLinks are modelled and tied to the source by pinned site lists / guards / regex group counts / loop shape, but not run against the model (not importable or behind network)",
         "index / slice expressions and length guards of the transcribed functions are read from the source with local names erased and pinned by c15_sites_pinned: an edit that adds or changes one breaks the theorem",
     )
-    level_text = ("66 theorems, all closed. For ALL inputs the models, written with checked slicing / indexing, return a result or an error, never Panic and never out of fuel: the line-oriented readers "
+    level_text = ("68 theorems, all closed. For ALL inputs the models, written with checked slicing / indexing, return a result or an error, never Panic and never out of fuel: the line-oriented readers "
                   "(ParsePackageIndex, ParseInstalled + parseInstalledPerms, UserFile.Load, GroupFile.Load, readReleaseData), ParseVersion / ResolvePackageNameVersionPin (group counts of the source's "
                   "regexes), cachedPackage, checksumFromHeader (three copies), the '@tag url' splitter of GetRepositoryIndexes (with a UTF-8 aware model of strings.Fields whose 'no empty field' contract is "
                   "a lemma), unify's constraint splitter (IndexAny result in range), ExpandApk's section indices for EVERY number of gzip members (table read from the source's switch, plus the member loop: "
                   "at most 3 members are collected, plus the tar scan of the control and data sections over six member kinds), Split/ParsePackageInfo/ResolveApk, the signature-name test and b[readBytes:] of "
-                  "parseRepositoryIndex, ParseArchitectures, the install loops' name test, standardizePath, the layer budget and groupByOriginAndSize's cut, and (session 4) parseAlpineVersion, fetchOffline, "
+                  "parseRepositoryIndex, ParseArchitectures, the install loops' name test, standardizePath, the layer budget and groupByOriginAndSize's cut, parseAlpineVersion, fetchOffline, "
                   "etagFromResponse, controlValue, installBusyboxLinks, EnvAuth.AddAuth, parseAnnotations, the '!name' constraints. Token limit: for each of the five line readers a line that does not fit the limit "
                   "the source sets makes the reader return an error (c15_long_line_is_error_*), never a shortened result. Bounded work: the scanner loops run at most |input|+1 turns, strings.Fields looks at every byte once, "
-                  "RemoveLabel's loop needs at most |s| turns (fuel proved sufficient), sortTarHeaders' fuel S(S(len)) suffices on every header list without an entry whose cleaned name is '.', and "
-                  "ImageConfiguration.Load on a file tree (paths.ResolvePath modelled: working directory first, then each include path; relative includes) returns whatever it returns within |files|+2 loads. "
-                  "Refuted with witnesses replayed on the real code: the self-child directory (C15-F4); the include cycle (C15-F6), now for EVERY cycle of resolved paths whatever the spellings "
-                  "(c15_include_cycle_any_spelling, five spelled witnesses on trees); unify without architectures, groupByOriginAndSize with MinInt64, RepoAbbr on a URI without '/' (three API-only shapes, no caller in apko). "
-                  "Both repairs (fixes/C15-F4.patch, fixes/C15-F6.patch) are modelled, proved to end on every input (F6: on every tree, although it compares resolved paths as text) and to agree with today's code wherever today's code returns.")
+                  "RemoveLabel's loop needs at most |s| turns; sortTarHeaders (since fix f716198 it skips an entry whose cleaned name is '.') ends on EVERY header list and every map order within fuel S(S(len)) "
+                  "(c15_consumes_sort_headers, c15_sort_headers_fix_terminates, conservative w.r.t. the former function); ImageConfiguration.Load on a file tree (paths.ResolvePath modelled: working directory first, then each "
+                  "include path; relative includes; since fix 43ae291 the resolved paths being loaded are remembered) returns on EVERY tree within |files|+2 loads (c15_include_load_terminates_on_trees, c15_include_chain_fuel_bound), "
+                  "answers every request that reaches a cycle of resolved paths with an error whatever the spellings (c15_include_cycle_is_error, five spelled trees) and changed nothing where the former loader returned. "
+                  "Hypothetical statements about the former shapes are kept and labelled so (c15_sort_headers_before_fix_hypothetical, c15_include_before_fix_*_hypothetical: the recursion that did not end, findings C15-F4 and C15-F6, both repaired). "
+                  "Refuted, API-only shapes with no caller in apko: unify without architectures, groupByOriginAndSize with MinInt64, RepoAbbr on a URI without '/'.")
     level_note = ("partial: proof for the modelled readers only; gzip/tar/yaml/json/ini decoding inside Split, ExpandApk, IndexFromArchive, ParsePackage, lock.FromFile, the YAML loader and baseimg.New is "
                   "explored with malformed streams and 3332 structured hostile inputs (among them 1100 declared-size archives with allocation accounting) under recover + deadline + memory ceiling (not a proof). trusted: Coq kernel, goextract, harness; "
                   "modelled not verified: the Go text of the readers")
